@@ -597,6 +597,8 @@ class Evaluator:
                 s = self.summary(callee, depth + 1)
                 if s is not None:
                     val = self._apply_summary(callee, s, raw_args, args, env, events, bb, fn)
+                elif self._inline_forking(fn, t, callee, raw_args, args, env, conds, events, visited, decided, stops, out, depth, entry, bb):
+                    return None
             if val is None:
                 pure = name in PURE_LOCAL or name in PURE_STD
                 if pure:
@@ -639,6 +641,94 @@ class Evaluator:
             return None
         self._summaries[key] = rets[0]
         return rets[0]
+
+    def _callee_paths(self, callee: mir.Fn, depth: int):
+        """all paths of a local helper evaluated on symbolic parameters (None if it loops, recurses or cannot be evaluated)"""
+        key = ('paths', callee.short)
+        if key in self._summaries:
+            return self._summaries[key]
+        self._summaries[key] = None      # recursion guard
+        try:
+            ps = self.paths(callee, depth=depth)
+        except AnalysisError:
+            return None
+        if not ps or len(ps) > 64 or any(isinstance(p.end, tuple) for p in ps):
+            return None
+        self._summaries[key] = ps
+        return ps
+
+    def _inline_forking(self, fn, t, callee, raw_args, args, env, conds, events, visited, decided, stops, out, depth, entry, bb) -> bool:
+        """a local helper with several paths (tests, early panics) and no `&mut` parameter is evaluated in place: each of its paths
+        that is consistent with what the caller has already decided continues (or ends) the caller's path, with the helper's
+        conditions and calls recorded as the caller's.  -> True if the call was handled this way."""
+        if any(pty.startswith('&mut ') for _pn, pty in callee.params):
+            return False
+        ps = self._callee_paths(callee, depth + 1)
+        if ps is None:
+            return False
+        ret_bb = t.targets[0][1]
+        sub = {('param', callee.debug_of.get(n, f'_{n}')): a for (n, _t), a in zip(callee.params, args)}
+        for sp in ps:
+            base = len([e for e in events if e.kind == 'call' and e.extra != 'pure'])
+            renum: dict = {}
+            k = 0
+            for e in sp.events:
+                if e.kind == 'call' and e.extra != 'pure' and e.result is not None:
+                    k += 1
+                    renum[e.result] = base + k
+
+            def rw(v):
+                if not isinstance(v, tuple) or not v:
+                    return v
+                if v in sub:
+                    return sub[v]
+                if v in renum:
+                    return ('call', v[1], tuple(rw(x) for x in v[2]), renum[v])
+                return tuple(rw(x) if isinstance(x, tuple) else x for x in v)
+
+            d2, c2, ok = dict(decided), list(conds), True
+            for c, o in sp.conds:
+                key = rw(c)
+                have = d2.get(key)
+                if key[0] == 'variant':
+                    if isinstance(o, tuple) and o[0] == 'not':
+                        if have is not None and have[0] == 'is':
+                            if have[1] in o[1]:
+                                ok = False
+                                break
+                            continue            # already known to be another variant
+                        prev = have[1] if have is not None else ()
+                        d2[key] = ('not', tuple(sorted(set(prev) | set(o[1]))))
+                    else:
+                        if have is not None and ((have[0] == 'is' and have[1] != o) or (have[0] == 'not' and o in have[1])):
+                            ok = False
+                            break
+                        if have is not None and have[0] == 'is':
+                            continue
+                        d2[key] = ('is', o)
+                elif key[0] == 'intval':
+                    pass
+                else:
+                    if have is not None:
+                        if have != o:
+                            ok = False
+                            break
+                        continue
+                    d2[key] = o
+                c2.append((key, o))
+            if not ok:
+                continue
+            ev2 = list(events)
+            for e in sp.events:
+                ev2.append(Event(e.kind, e.name, tuple(rw(a) for a in e.args), rw(e.result) if e.result else None,
+                                 bb, fn.short, extra=('via', callee.short) if e.extra not in ('pure', 'diverges') else e.extra))
+            if sp.end == 'diverge':
+                out.append(Path(c2, ev2, 'diverge', None, env, visited, why=sp.why))
+                continue
+            e2 = dict(env)
+            self.assign(fn, t.dest, rw(sp.ret), e2, ev2, bb)
+            self._walk(fn, ret_bb, e2, c2, ev2, visited, d2, stops, out, depth, entry)
+        return True
 
     def _apply_summary(self, callee, s: Path, raw_args, args, env, events, bb, fn):
         sub = {('param', callee.debug_of.get(n, f'_{n}')): a for (n, _t), a in zip(callee.params, args)}
